@@ -33,14 +33,15 @@ type C11Req struct {
 
 // C11ConnScript is how the scripted server behind the k-th dialled connection behaves.
 type C11ConnScript struct {
-	GoAwayAfter int    `json:"goaway_after"` // GOAWAY may be sent once this many request streams were seen (0: never)
-	GoAwayLast  int    `json:"goaway_last"`  // -1: 2^31-1; 0: zero; k>0: the id of the k-th stream seen on the connection
-	GoAwayCode  uint32 `json:"goaway_code"`
-	RefuseNth   int    `json:"refuse_nth"` // the n-th stream seen is answered with RST_STREAM(REFUSED_STREAM) (0: none)
-	KillAfter   int    `json:"kill_after"` // the connection may be cut once this many streams were seen (0: never)
-	Partial     bool   `json:"partial"`    // responses are sent in two steps
-	MaxStreams  int64  `json:"max_streams"`
-	Silent      bool   `json:"silent"` // never answers (MaxResponseTime must end the requests)
+	GoAwayAfter  int    `json:"goaway_after"` // GOAWAY may be sent once this many request streams were seen (0: never)
+	GoAwayLast   int    `json:"goaway_last"`  // -1: 2^31-1; 0: zero; k>0: the id of the k-th stream seen on the connection
+	GoAwayCode   uint32 `json:"goaway_code"`
+	RefuseNth    int    `json:"refuse_nth"`              // the n-th stream seen is answered with RST_STREAM(REFUSED_STREAM) (0: none)
+	GoAwayNotice bool   `json:"goaway_notice,omitempty"` // graceful shutdown: GOAWAY(2^31-1, NO_ERROR) first, the real one later (RFC 7540 6.8)
+	KillAfter    int    `json:"kill_after"`              // the connection may be cut once this many streams were seen (0: never)
+	Partial      bool   `json:"partial"`                 // responses are sent in two steps
+	MaxStreams   int64  `json:"max_streams"`
+	Silent       bool   `json:"silent"` // never answers (MaxResponseTime must end the requests)
 }
 
 type C11Plan struct {
@@ -105,6 +106,7 @@ type c11Conn struct {
 	goAwaySent   bool
 	goAwayLast   uint32
 	goAwayBytes  int64 // wire offset (b2a.Injected is plaintext-free; see gaDelivered)
+	noticeSent   bool
 	gaFlushed    bool
 	gaProcessed  bool // GOAWAY flushed, every wire byte delivered, and the system was quiescent afterwards
 	killed       bool
@@ -432,6 +434,12 @@ func (w *C11World) EnvActions() []Action {
 		// GOAWAY
 		if c.script.GoAwayAfter > 0 && !c.goAwaySent && len(c.streams) >= c.script.GoAwayAfter {
 			acts = append(acts, Action{Name: "goaway c" + itoa(c.idx), Env: true, Weight: 10, Run: func() {
+				if c.script.GoAwayNotice && !c.noticeSent {
+					c.noticeSent = true
+					w.Probes["goaway-notice"]++
+					c.send(c.fw.GoAway(1<<31-1, 0, nil))
+					return
+				}
 				c.goAwaySent = true
 				c.goAwayLast = w.lastID(c)
 				for _, s := range c.streams {
@@ -662,6 +670,7 @@ func GenC11(r *RNG) *C11Plan {
 			s.GoAwayAfter = 1 + r.Intn(n)
 			s.GoAwayLast = Pick(r, -1, 0, 1, 2, 3)
 			s.GoAwayCode = uint32(Pick(r, 0, 0, 2, 11))
+			s.GoAwayNotice = r.Intn(3) == 0
 		case 3:
 			s.RefuseNth = 1 + r.Intn(n)
 		case 4:
